@@ -6,7 +6,7 @@ CFG = {
     "rule": "scenarios `rt|ip|threads|timeout_ms|deny|mode|k|kinds|seed` run on the REAL App::run with a shutdown "
             "receiver (threaded, binary hv) / cancellation token (tokio, binary hvt from harness-tokio), each batch in a "
             "CHILD PROCESS, on 127.0.0.1, 0.0.0.0, [::] and [::1] with a free port per scenario (found by binding port "
-            "0); 0..16 client connections, one letter each: J just accepted (nothing sent), K idle keep-alive (one "
+            "0); 0..16 client connections (large states: up to 5 008), one letter each: J just accepted (nothing sent), K idle keep-alive (one "
             "request answered, open), H half-sent request, S/L handler running short (30 ms) / long (350 ms), W "
             "response being written (2 MiB body, client not reading), O WebSocket open; pools of 1..8 threads "
             "including fully occupied ones (more holding connections than threads, in-flight requests queued behind "
@@ -14,7 +14,24 @@ CFG = {
             "connection; signal mode B before the first connection, M after the first k connections (the rest connect "
             "afterwards), C from a second thread concurrently with the connects, A after all connections are placed. "
             "Fixed block (every address x every mode, every state alone with a free and with an occupied pool, "
-            "saturated pools) plus seed-chosen scenarios. Measured: time from sending the signal to the return of run "
+            "saturated pools) plus seed-chosen scenarios. LARGE STATES (signal mode Q, both runtimes, every tier): "
+            "pools of 1, 2 and 8 threads with EVERY worker held by a connection that does not finish (seed-chosen "
+            "J / H / O / K, no connection timeout; k = pool size, these are placed one by one) and 200 and 1 100 "
+            "further connections (thorough tier: also 5 000, and 12 seed-chosen scenarios per runtime with pools of "
+            "1..8 and 17..3 000 further connections, a third of them within 128*threads -2..+140) that are accepted "
+            "and queued behind them (tokio: spawned and idle) when the signal is sent: silent, idle keep-alive and "
+            "half-sent ones with four complete requests (S S S W) at seed-chosen places and one S as the very last "
+            "(dispatched before the signal: must be answered completely after run has returned and the holders "
+            "have let go), so that any bound on queued work up to a few thousand is crossed. These connections "
+            "are made in a burst that stays at most 48 ahead of the accept loop (the listen backlog is never the "
+            "limit); the signal is sent when the loop has dealt with all of them; if the loop does not move for "
+            "2.5 s although connections are waiting, the remaining clients are not connected (listed with the "
+            "refused ones) and the signal is sent at once. Both ends of every connection live in the child: the "
+            "children are started through sh with the soft descriptor limit raised to 16384 (or the hard limit), "
+            "the connection counts are capped at (limit - 256) / 2 (evidence: generator_notes.descriptor_limit); "
+            "the deadlines for in-flight responses and worker exits grow by 2 ms per connection. If run returns "
+            "before the port is in LISTEN (the port found by binding port 0 was taken in between) the scenario is "
+            "started again on another port (5 times, then NO-BIND). Measured: time from sending the signal to the return of run "
             "(> 3 s = WEDGED, the child is abandoned), re-binding the same address immediately after the return, and "
             "per in-flight client (S, L, W) whether the response is complete (status line .. Content-Length bytes = C), "
             "truncated (P), absent with the connection closed (Z) or absent with the connection open (T). With the "
